@@ -20,12 +20,25 @@ def main():
                     choices=["quick", "thorough"])
     ap.add_argument("--replay")
     ap.add_argument("--only")
+    ap.add_argument("--opt-child", help=argparse.SUPPRESS)      # internal: the share of a check that runs under python -O
     args = ap.parse_args()
 
+    # a replay file of a violation seen under python -O is replayed under python -O
+    flags = []
+    if args.replay and not sys.flags.optimize:
+        try:
+            import json
+            with open(args.replay) as f:
+                if json.load(f).get("interpreter") == "-O":
+                    flags = ["-O"]
+        except Exception:      # noqa: BLE001
+            pass
+
     # every run is a pure function of (tree, VERIF_SEED, tier): pin the hash seed
-    if os.environ.get("PYTHONHASHSEED") != "0":
+    if os.environ.get("PYTHONHASHSEED") != "0" or flags:
         env = dict(os.environ, PYTHONHASHSEED="0")
-        os.execve(sys.executable, [sys.executable] + sys.argv, env)
+        pre = ["-O"] if (flags or sys.flags.optimize) else []
+        os.execve(sys.executable, [sys.executable] + pre + sys.argv, env)
 
     sys.path.insert(0, HERE)
     os.chdir(HERE)
@@ -41,10 +54,12 @@ def main():
     mod_name = "checks." + os.path.basename(mods[0])[:-3]
     try:
         from vlib import runner
-        if args.replay:
+        only = set(args.only.split(",")) if args.only else None
+        if args.opt_child:
+            rc = runner.run_opt_child(mod_name, args.tier, seed, only, args.opt_child)
+        elif args.replay:
             rc = runner.replay(mod_name, args.replay)
         else:
-            only = set(args.only.split(",")) if args.only else None
             rc = runner.run_property(mod_name, args.tier, seed, only)
     except SystemExit:
         raise
